@@ -218,3 +218,981 @@ Qed.
 
 Lemma value_ext H H' m : wf_heap H -> ext H H' -> m < nxt (hm H) -> value H' m = value H m.
 Proof. intros W E Hm. eapply value_frame; eauto. apply ext_frame; eauto. Qed.
+
+(** * Building messages *)
+
+Ltac splitn := match goal with |- _ /\ _ => split; [|splitn] | _ => idtac end.
+
+
+Lemma rec_val_ext H H' r : wf_heap H -> ext H H' -> r < nxt (hr H) -> rec_val H' r = rec_val H r.
+Proof. intros W E Hr. eapply rec_val_frame; eauto. apply ext_frame; eauto. Qed.
+
+Lemma new_rec_spec o H v H' r :
+  new_rec o H v = (H', r) -> wf_heap H ->
+  r = nxt (hr H) /\ nxt (hr H') = S (nxt (hr H)) /\ hm H' = hm H /\ ha H' = ha H /\
+  wf_heap H' /\ ext H H' /\ own (hr H') r = o /\ rec_val H' r = v /\
+  r_data (dat (hr H') r) = nxt (hb H).
+Proof.
+  unfold new_rec. intros E W.
+  pose proof (wf_alloc_b o (v_data v) H W) as W1.
+  pose proof (ext_alloc_b o (v_data v) H) as X1.
+  destruct (alloc_b o (v_data v) H) as [H1 b] eqn:Eb. simpl in W1, X1.
+  assert (Hb : b = nxt (hb H) /\ nxt (hb H1) = S b /\ own (hb H1) b = o /\ dat (hb H1) b = v_data v
+               /\ hm H1 = hm H /\ ha H1 = ha H /\ hr H1 = hr H).
+  { unfold alloc_b, alloc in Eb. inversion Eb; subst; simpl. rewrite !upd_same. repeat split; auto. }
+  destruct Hb as (Hb1 & Hb2 & Hb3 & Hb4 & Hb5 & Hb6 & Hb7).
+  set (ro := mkrec (v_name v) (v_type v) (v_ttl v) b) in *.
+  pose proof (wf_alloc_r o ro H1 W1) as W2.
+  pose proof (ext_alloc_r o ro H1) as X2.
+  rewrite E in W2, X2. simpl in W2, X2.
+  assert (W2' : wf_heap H') by (apply W2; [lia | auto]).
+  assert (X : ext H H') by (eapply ext_trans; eauto).
+  clear W2 X2. unfold alloc_r, alloc in E. inversion E; subst H' r; simpl.
+  splitn; auto; try congruence.
+  - apply upd_same.
+  - unfold rec_val; simpl. rewrite upd_same. simpl. rewrite Hb4. destruct v; reflexivity.
+  - rewrite upd_same. simpl. exact Hb1.
+Qed.
+
+Lemma new_list_spec o l : forall H H' ids,
+  new_list o H l = (H', ids) -> wf_heap H ->
+  ids = seq (nxt (hr H)) (length l) /\ nxt (hr H') = nxt (hr H) + length l /\
+  hm H' = hm H /\ ha H' = ha H /\ wf_heap H' /\ ext H H' /\
+  (forall r, In r ids -> own (hr H') r = o) /\ map (rec_val H') ids = l /\
+  (forall r, In r ids -> nxt (hb H) <= r_data (dat (hr H') r)).
+Proof.
+  induction l as [|v t IH]; intros H H' ids E W; cbn [new_list] in E.
+  - inversion E; subst. simpl. splitn; auto using ext_refl; intros r [].
+  - destruct (new_rec o H v) as [H1 r] eqn:Er.
+    destruct (new_list o H1 t) as [H2 rs] eqn:El.
+    injection E as <- <-.
+    destruct (new_rec_spec _ _ _ _ _ Er W) as (R1 & R2 & R3 & R4 & R5 & R6 & R7 & R8 & R9).
+    destruct (IH _ _ _ El R5) as (L1 & L2 & L3 & L4 & L5 & L6 & L7 & L8 & L9).
+    assert (Hr : r < nxt (hr H1)) by lia.
+    assert (Or : own (hr H2) r = o).
+    { destruct L6 as (_ & _ & [[_ O] _] & _). rewrite O; auto. }
+    splitn.
+    + simpl. rewrite L1, R2, R1. reflexivity.
+    + simpl. lia.
+    + congruence.
+    + congruence.
+    + exact L5.
+    + eapply ext_trans; eauto.
+    + intros x [<- | Hx]; auto.
+    + simpl. rewrite L8. rewrite (rec_val_ext H1 H2 r R5 L6 Hr), R8. reflexivity.
+    + assert (Lb : nxt (hb H) <= nxt (hb H1)) by (destruct R6 as (_ & _ & _ & [[L _] _]); auto).
+      intros x [<- | Hx].
+      * destruct L6 as (_ & _ & [_ D] & _). rewrite D by auto. lia.
+      * specialize (L9 x Hx). lia.
+Qed.
+
+Lemma new_arr_spec o H l H' a :
+  new_arr o H l = (H', a) -> wf_heap H ->
+  a = nxt (ha H) /\ nxt (ha H') = S a /\ hm H' = hm H /\ wf_heap H' /\ ext H H' /\
+  own (ha H') a = o /\ dat (ha H') a = seq (nxt (hr H)) (length l) /\
+  nxt (hr H') = nxt (hr H) + length l /\ arr_val H' a = l /\
+  (forall r, In r (dat (ha H') a) -> nxt (hb H) <= r_data (dat (hr H') r)).
+Proof.
+  unfold new_arr. intros E W.
+  destruct (new_list o H l) as [H1 rs] eqn:El.
+  destruct (new_list_spec _ _ _ _ _ El W) as (L1 & L2 & L3 & L4 & L5 & L6 & L7 & L8 & L9).
+  assert (Hrs : forall r, In r rs -> r < nxt (hr H1) /\ own (hr H1) r = o).
+  { intros r Hi. split; auto. rewrite L1 in Hi. apply in_seq in Hi. lia. }
+  pose proof (wf_alloc_a o rs H1 L5 Hrs) as W2.
+  pose proof (ext_alloc_a o rs H1) as X2.
+  rewrite E in W2, X2; simpl in W2, X2.
+  assert (X : ext H H') by (eapply ext_trans; eauto).
+  assert (V : arr_val H' a = l).
+  { unfold arr_val. unfold alloc_a, alloc in E. inversion E; subst H' a; simpl. rewrite upd_same.
+    rewrite <- L8. apply map_ext_in. intros r Hi. destruct (Hrs r Hi).
+    apply (rec_val_ext H1); auto. }
+  unfold alloc_a, alloc in E. inversion E; subst H' a; simpl in *.
+  rewrite !upd_same. splitn; auto; try congruence.
+Qed.
+
+Lemma new_msg_spec o H v H' m :
+  new_msg o H v = (H', m) -> wf_heap H ->
+  m = nxt (hm H) /\ nxt (hm H') = S m /\ wf_heap H' /\ ext H H' /\ own (hm H') m = o /\
+  value H' m = v /\
+  reach_recs H' m = seq (nxt (hr H)) (length (mv_an v) + length (mv_ns v) + length (mv_ex v)) /\
+  nxt (hr H') = nxt (hr H) + (length (mv_an v) + length (mv_ns v) + length (mv_ex v)) /\
+  (forall x, In x (reach_arrs H' m) -> nxt (ha H) <= x) /\
+  (forall r, In r (reach_recs H' m) -> nxt (hb H) <= r_data (dat (hr H') r)).
+Proof.
+  unfold new_msg. intros E W.
+  destruct (new_arr o H (mv_an v)) as [H1 an] eqn:E1.
+  destruct (new_arr o H1 (mv_ns v)) as [H2 ns] eqn:E2.
+  destruct (new_arr o H2 (mv_ex v)) as [H3 ex] eqn:E3.
+  destruct (new_arr_spec _ _ _ _ _ E1 W) as (A1 & A2 & A3 & A4 & A5 & A6 & A7 & A8 & A9 & A10).
+  destruct (new_arr_spec _ _ _ _ _ E2 A4) as (B1 & B2 & B3 & B4 & B5 & B6 & B7 & B8 & B9 & B10).
+  destruct (new_arr_spec _ _ _ _ _ E3 B4) as (C1 & C2 & C3 & C4 & C5 & C6 & C7 & C8 & C9 & C10).
+  set (mo := mkmsg (mv_id v) (mv_hdr v) (mv_q v) an ns ex) in *.
+  (* the arrays seen from H3 *)
+  assert (Pa : forall H' : heap, pool_ext (ha H1) (ha H') -> dat (ha H') an = dat (ha H1) an /\ own (ha H') an = o).
+  { intros Hx [[_ O] D]. rewrite D, O by lia. auto. }
+  destruct B5 as (B5m & B5a & B5r & B5b). destruct C5 as (C5m & C5a & C5r & C5b).
+  assert (B5' : ext H1 H2) by (split4; auto). assert (C5' : ext H2 H3) by (split4; auto).
+  assert (X13 : ext H1 H3) by (eapply ext_trans; eauto).
+  destruct (Pa H3) as [Dan Oan]; [apply X13|].
+  assert (Dns : dat (ha H3) ns = dat (ha H2) ns /\ own (ha H3) ns = o).
+  { destruct C5a as [[_ O] D]. rewrite D, O by lia. auto. }
+  destruct Dns as [Dns Ons].
+  assert (Hs : forall s, sec_arr mo s < nxt (ha H3) /\ own (ha H3) (sec_arr mo s) = o).
+  { destruct X13 as (_ & [[L13 _] _] & _). destruct C5a as [[L23 _] _].
+    intros []; simpl; split; auto; lia. }
+  pose proof (wf_alloc_m o mo H3 C4 Hs) as W4.
+  pose proof (ext_alloc_m o mo H3) as X4.
+  rewrite E in W4, X4; simpl in W4, X4.
+  assert (X : ext H H') by (eapply ext_trans; [exact A5|]; eapply ext_trans; eauto).
+  assert (Hm3 : hm H3 = hm H) by congruence.
+  assert (Van : arr_val H3 an = mv_an v).
+  { rewrite <- A9. apply (arr_val_frame o H1 H3); auto; try lia. apply ext_frame; auto. }
+  assert (Vns : arr_val H3 ns = mv_ns v).
+  { rewrite <- B9. apply (arr_val_frame o H2 H3); auto; try lia. apply ext_frame; auto. }
+  assert (V : value H' m = v /\ reach_recs H' m = dat (ha H3) an ++ dat (ha H3) ns ++ dat (ha H3) ex).
+  { unfold alloc_m, alloc in E. injection E as <- <-. unfold value, reach_recs, reach_arrs; simpl.
+    rewrite upd_same. simpl. rewrite app_nil_r. split; auto.
+    change (arr_val (with_hm H3 {| dat := upd (dat (hm H3)) (nxt (hm H3)) mo; nxt := S (nxt (hm H3));
+                                   own := upd (own (hm H3)) (nxt (hm H3)) o |})) with (arr_val H3).
+    rewrite Van, Vns, C9. destruct v; reflexivity. }
+  destruct V as [V1 V2].
+  unfold alloc_m, alloc in E. injection E as <- <-; simpl in *.
+  rewrite !upd_same. splitn; auto; try congruence.
+  - rewrite V2, Dan, Dns, A7, B7, C7, B8, A8. rewrite <- !seq_app. f_equal. lia.
+  - lia.
+  - unfold reach_arrs. simpl.
+    destruct A5 as (_ & [[La _] _] & _). destruct B5a as [[Lb _] _].
+    intros x [<- | [<- | [<- | []]]]; lia.
+  - intros r Hr. rewrite V2 in Hr.
+    assert (Lb1 : nxt (hb H) <= nxt (hb H1)) by (destruct A5 as (_ & _ & _ & [[L _] _]); auto).
+    assert (Lb2 : nxt (hb H1) <= nxt (hb H2)) by (destruct B5b as [[L _] _]; auto).
+    destruct A4 as (_ & WA2 & _). destruct B4 as (_ & WB2 & _).
+    rewrite !in_app_iff in Hr. destruct Hr as [Hr | [Hr | Hr]].
+    + rewrite Dan in Hr. specialize (A10 r Hr). destruct (WA2 an r) as [Lr _]; [lia | auto |].
+      destruct X13 as (_ & _ & [_ D] & _). rewrite D by auto. auto.
+    + rewrite Dns in Hr. specialize (B10 r Hr). destruct (WB2 ns r) as [Lr _]; [lia | auto |].
+      destruct C5r as [_ D]. rewrite D by auto. lia.
+    + specialize (C10 r Hr). lia.
+Qed.
+
+(** * Copies are "build a new message from the value" *)
+
+Definition keep (skip : bool) (v : rval) : bool := negb (skip && is_opt v).
+Definition gen_val (no_opt : bool) (v : mval) : mval :=
+  mkmv (mv_id v) (mv_hdr v) (mv_q v) (mv_an v) (mv_ns v) (filter (keep no_opt) (mv_ex v)).
+
+Lemma filter_keep_false l : filter (keep false) l = l.
+Proof. induction l; simpl; congruence. Qed.
+Lemma gen_val_false v : gen_val false v = v.
+Proof. unfold gen_val. rewrite filter_keep_false. destruct v; reflexivity. Qed.
+Lemma gen_val_true v : gen_val true v = strip_opt v.
+Proof. reflexivity. Qed.
+
+Lemma copy_rec_new o H r : copy_rec o H r = new_rec o H (rec_val H r).
+Proof. reflexivity. Qed.
+
+Lemma copy_list_new o skip l : forall H,
+  wf_heap H -> (forall r, In r l -> r < nxt (hr H)) ->
+  copy_list o skip H l = new_list o H (filter (keep skip) (map (rec_val H) l)).
+Proof.
+  induction l as [|r t IH]; intros H W Hl; cbn [copy_list map filter]; auto.
+  change (r_type (dat (hr H) r) =? type_opt)%N with (is_opt (rec_val H r)).
+  unfold keep at 1. destruct (skip && is_opt (rec_val H r)); cbn [negb].
+  - apply IH; auto. intros; apply Hl; right; auto.
+  - cbn [new_list]. rewrite copy_rec_new.
+    destruct (new_rec o H (rec_val H r)) as [H1 r'] eqn:Er.
+    destruct (new_rec_spec _ _ _ _ _ Er W) as (R1 & R2 & R3 & R4 & R5 & R6 & R7 & R8).
+    rewrite IH; auto.
+    + replace (map (rec_val H1) t) with (map (rec_val H) t); auto.
+      apply map_ext_in. intros x Hx. symmetry. apply rec_val_ext; auto. apply Hl; right; auto.
+    + intros x Hx. rewrite R2. specialize (Hl x (or_intror Hx)). lia.
+Qed.
+
+Lemma copy_arr_new o skip H a :
+  wf_heap H -> a < nxt (ha H) ->
+  copy_arr o skip H a = new_arr o H (filter (keep skip) (arr_val H a)).
+Proof.
+  intros W Ha. unfold copy_arr, new_arr, arr_val. rewrite copy_list_new; auto.
+  intros r Hr. destruct W as (_ & W2 & _). apply (W2 a r Ha Hr).
+Qed.
+
+Lemma copy_msg_gen_new o no_opt H m :
+  wf_heap H -> m < nxt (hm H) ->
+  copy_msg_gen o no_opt H m = new_msg o H (gen_val no_opt (value H m)).
+Proof.
+  intros W Hm. unfold copy_msg_gen, new_msg, gen_val, value; cbn [mv_id mv_hdr mv_q mv_an mv_ns mv_ex].
+  pose proof W as (W1 & _).
+  destruct (W1 m An Hm) as [La _], (W1 m Ns Hm) as [Ln _], (W1 m Ex Hm) as [Le _]. simpl in La, Ln, Le.
+  set (mo := dat (hm H) m) in *.
+  rewrite copy_arr_new, filter_keep_false by auto.
+  destruct (new_arr o H (arr_val H (m_an mo))) as [H1 an] eqn:E1.
+  destruct (new_arr_spec _ _ _ _ _ E1 W) as (A1 & A2 & A3 & A4 & A5 & A6 & A7 & A8 & A9).
+  assert (L1 : nxt (ha H) <= nxt (ha H1)) by (destruct A5 as (_ & [[L _] _] & _); auto).
+  rewrite copy_arr_new, filter_keep_false by (auto; lia).
+  rewrite (arr_val_frame (own (ha H) (m_ns mo)) H H1) by (auto using ext_frame).
+  destruct (new_arr o H1 (arr_val H (m_ns mo))) as [H2 ns] eqn:E2.
+  destruct (new_arr_spec _ _ _ _ _ E2 A4) as (B1 & B2 & B3 & B4 & B5 & B6 & B7 & B8 & B9).
+  assert (X2 : ext H H2) by (eapply ext_trans; eauto).
+  assert (L2 : nxt (ha H) <= nxt (ha H2)) by (destruct X2 as (_ & [[L _] _] & _); auto).
+  rewrite copy_arr_new by (auto; lia).
+  rewrite (arr_val_frame (own (ha H) (m_ex mo)) H H2) by (auto using ext_frame).
+  reflexivity.
+Qed.
+
+(** * TTL rewriting in place *)
+
+Lemma NoDup_app_inv {A} (l l' : list A) :
+  NoDup (l ++ l') -> NoDup l /\ NoDup l' /\ forall x, In x l -> ~ In x l'.
+Proof.
+  induction l as [|a l IH]; simpl; intro ND.
+  - splitn; auto. constructor.
+  - inversion ND as [|? ? Ha ND']; subst. destruct (IH ND') as (N1 & N2 & N3). splitn; auto.
+    + constructor; auto. intro; apply Ha; apply in_or_app; auto.
+    + intros x [<- | Hx]; auto. intro; apply Ha; apply in_or_app; auto.
+Qed.
+
+
+Definition adj_reco (a : ttl_adj) (ro : reco) : reco :=
+  if (r_type ro =? type_opt)%N then ro
+  else mkrec (r_name ro) (r_type ro) (adj_ttl a (r_ttl ro)) (r_data ro).
+
+Lemma adjust_rec_eq a H r :
+  adjust_rec a H r = put_r r (adj_reco a (dat (hr H) r)) H \/
+  (adjust_rec a H r = H /\ adj_reco a (dat (hr H) r) = dat (hr H) r).
+Proof.
+  unfold adjust_rec, adj_reco. destruct (r_type (dat (hr H) r) =? type_opt)%N; auto.
+Qed.
+
+Definition same_shape (H H' : heap) : Prop :=
+  hm H' = hm H /\ ha H' = ha H /\ hb H' = hb H /\ nxt (hr H') = nxt (hr H) /\
+  own (hr H') = own (hr H) /\ (forall r, r_data (dat (hr H') r) = r_data (dat (hr H) r)).
+
+Lemma same_shape_refl H : same_shape H H.
+Proof. unfold same_shape; splitn; auto. Qed.
+Lemma same_shape_trans H1 H2 H3 : same_shape H1 H2 -> same_shape H2 H3 -> same_shape H1 H3.
+Proof.
+  intros (A1 & A2 & A3 & A4 & A5 & A6) (B1 & B2 & B3 & B4 & B5 & B6).
+  unfold same_shape; splitn; try congruence.
+Qed.
+
+Lemma adjust_rec_shape a H r :
+  same_shape H (adjust_rec a H r) /\
+  dat (hr (adjust_rec a H r)) r = adj_reco a (dat (hr H) r) /\
+  (forall x, x <> r -> dat (hr (adjust_rec a H r)) x = dat (hr H) x).
+Proof.
+  destruct (adjust_rec_eq a H r) as [E | [E E']]; rewrite E.
+  - unfold put_r, same_shape; simpl. splitn.
+    + splitn; auto. intro x. upd_case x r; [|reflexivity]. unfold adj_reco. destruct (_ =? _)%N; reflexivity.
+    + apply upd_same.
+    + intros x Hx. apply upd_other; auto.
+  - splitn; auto using same_shape_refl.
+Qed.
+
+Lemma adjust_list_spec a l : forall H,
+  same_shape H (adjust_list a H l) /\
+  (forall r, ~ In r l -> dat (hr (adjust_list a H l)) r = dat (hr H) r) /\
+  (NoDup l -> forall r, In r l -> dat (hr (adjust_list a H l)) r = adj_reco a (dat (hr H) r)).
+Proof.
+  unfold adjust_list. induction l as [|x t IH]; intro H; cbn [fold_left].
+  - splitn; auto using same_shape_refl. intros _ r [].
+  - destruct (adjust_rec_shape a H x) as (S1 & D1 & D2).
+    destruct (IH (adjust_rec a H x)) as (S2 & D3 & D4).
+    splitn.
+    + eapply same_shape_trans; eauto.
+    + intros r Hr. rewrite D3 by (intro; apply Hr; right; auto). apply D2. intro; subst; apply Hr; left; auto.
+    + intros ND r Hr. inversion ND as [|? ? Hx ND']; subst.
+      destruct Hr as [<- | Hr].
+      * rewrite D3 by auto. exact D1.
+      * rewrite D4 by auto. rewrite D2; auto. intro; subst; contradiction.
+Qed.
+
+Lemma same_shape_wf H H' : same_shape H H' -> wf_heap H -> wf_heap H'.
+Proof.
+  intros (A1 & A2 & A3 & A4 & A5 & A6) (W1 & W2 & W3). unfold wf_heap.
+  rewrite A1, A2, A3, A4, A5. splitn; auto. intros r Hr. rewrite A6. auto.
+Qed.
+
+Lemma rec_val_adj a H H' r :
+  hb H' = hb H -> dat (hr H') r = adj_reco a (dat (hr H) r) -> rec_val H' r = adjust_rv a (rec_val H r).
+Proof.
+  intros Eb E. unfold rec_val, adjust_rv. rewrite E, Eb. unfold adj_reco. simpl.
+  destruct (r_type (dat (hr H) r) =? type_opt)%N; reflexivity.
+Qed.
+
+Lemma adjust_msg_spec a H m :
+  wf_heap H -> NoDup (reach_recs H m) ->
+  let H' := adjust_msg a H m in
+  same_shape H H' /\ wf_heap H' /\ value H' m = adjust_val a (value H m) /\
+  (forall r, ~ In r (reach_recs H m) -> dat (hr H') r = dat (hr H) r).
+Proof.
+  intros W ND. unfold adjust_msg. set (mo := dat (hm H) m).
+  unfold reach_recs, reach_arrs in ND. fold mo in ND. cbn [flat_map] in ND. rewrite app_nil_r in ND.
+  set (l1 := dat (ha H) (m_an mo)) in *. set (l2 := dat (ha H) (m_ns mo)) in *. set (l3 := dat (ha H) (m_ex mo)) in *.
+  destruct (adjust_list_spec a l1 H) as (S1 & N1 & D1). set (H1 := adjust_list a H l1) in *.
+  assert (E2 : dat (ha H1) (m_ns mo) = l2) by (destruct S1 as (_ & -> & _); reflexivity). rewrite E2.
+  destruct (adjust_list_spec a l2 H1) as (S2 & N2 & D2). set (H2 := adjust_list a H1 l2) in *.
+  assert (E3 : dat (ha H2) (m_ex mo) = l3).
+  { destruct S2 as (_ & -> & _). destruct S1 as (_ & -> & _). reflexivity. } rewrite E3.
+  destruct (adjust_list_spec a l3 H2) as (S3 & N3 & D3). set (H3 := adjust_list a H2 l3) in *.
+  assert (S : same_shape H H3) by (eapply same_shape_trans; [|exact S3]; eapply same_shape_trans; eauto).
+  destruct (NoDup_app_inv _ _ ND) as (ND1 & ND23 & Q1).
+  destruct (NoDup_app_inv _ _ ND23) as (ND2 & ND3 & Q2).
+  assert (Dis : forall r, (In r l1 -> ~ In r l2 /\ ~ In r l3) /\ (In r l2 -> ~ In r l3)).
+  { intro r. split; [|apply Q2]. intro I1. specialize (Q1 r I1). rewrite in_app_iff in Q1. tauto. }
+  clear Q1 Q2.
+  assert (R : forall r, In r (l1 ++ l2 ++ l3) -> dat (hr H3) r = adj_reco a (dat (hr H) r)).
+  { intros r Hr. rewrite !in_app_iff in Hr. destruct (Dis r) as [Q1 Q2]. destruct Hr as [I | [I | I]].
+    - destruct (Q1 I). rewrite N3, N2 by auto. auto.
+    - rewrite N3 by auto. rewrite D2 by auto. rewrite N1; auto. intro I1. destruct (Q1 I1); auto.
+    - rewrite D3 by auto. rewrite N2, N1; auto.
+      + intro I1. destruct (Q1 I1); auto.
+      + intro I2. apply (Q2 I2); auto. }
+  splitn; auto.
+  - eapply same_shape_wf; eauto.
+  - pose proof S as (A1 & A2 & A3 & _). unfold value. rewrite A1. fold mo. unfold adjust_val; cbn [mv_id mv_hdr mv_q mv_an mv_ns mv_ex].
+    unfold arr_val. rewrite A2. fold l1 l2 l3. rewrite !map_map.
+    f_equal; apply map_ext_in; intros r Hr; apply rec_val_adj; auto; apply R; rewrite !in_app_iff; auto.
+  - intros r Hr. unfold reach_recs, reach_arrs in Hr. fold mo in Hr. cbn [flat_map] in Hr.
+    rewrite app_nil_r in Hr. fold l1 l2 l3 in Hr. rewrite !in_app_iff in Hr.
+    rewrite N3, N2, N1; auto.
+Qed.
+
+(** * Mutations by a holder stay inside the holder's region *)
+
+Lemma rec_at_wf H m s i r :
+  wf_heap H -> m < nxt (hm H) -> rec_at H m s i = Some r ->
+  r < nxt (hr H) /\ own (hr H) r = own (hm H) m.
+Proof.
+  intros (W1 & W2 & W3) Hm E. unfold rec_at in E. apply nth_error_In in E.
+  destruct (W1 m s Hm) as [La Oa]. destruct (W2 _ _ La E) as [Lr Or]. split; congruence.
+Qed.
+
+Lemma set_nth_In {A} (v : A) l : forall i x, In x (set_nth i v l) -> x = v \/ In x l.
+Proof.
+  induction l as [|y t IH]; intros [|i] x; simpl; auto.
+  - intros [<- | Hx]; auto.
+  - intros [<- | Hx]; auto. destruct (IH i x Hx); auto.
+Qed.
+
+Lemma del_nth_In {A} (l : list A) : forall i x, In x (del_nth i l) -> In x l.
+Proof.
+  induction l as [|y t IH]; intros [|i] x; simpl; auto.
+  intros [<- | Hx]; eauto.
+Qed.
+
+Lemma firstn_In' {A} n (l : list A) x : In x (firstn n l) -> In x l.
+Proof. intro Hx. rewrite <- (firstn_skipn n l). apply in_or_app; auto. Qed.
+
+Lemma mutate_ok H m m' mu :
+  wf_heap H -> m < nxt (hm H) -> m' < nxt (hm H) -> own (hm H) m' = own (hm H) m ->
+  wf_heap (mutate H m m' mu) /\
+  forall o', o' <> own (hm H) m -> frame o' H (mutate H m m' mu).
+Proof.
+  intros W Hm Hm' Oeq. pose proof W as (W1 & W2 & W3).
+  assert (Hsec : forall s, sec_arr (dat (hm H) m) s < nxt (ha H) /\
+                           own (ha H) (sec_arr (dat (hm H) m) s) = own (hm H) m) by (intro; apply W1; auto).
+  destruct mu as [v|v|q|s i v|s i v|s i v|s i j b|s i d|s v|s n|s i|s i h' s' j|s i h' s' j]; cbn [mutate].
+  - split; [apply wf_put_m; auto | intros; apply frame_put_m; auto].
+  - split; [apply wf_put_m; auto | intros; apply frame_put_m; auto].
+  - split; [apply wf_put_m; auto | intros; apply frame_put_m; auto].
+  - destruct (rec_at H m s i) as [r|] eqn:E; [|split; auto using frame_refl].
+    destruct (rec_at_wf _ _ _ _ _ W Hm E) as [Lr Or]. destruct (W3 r Lr).
+    split; [apply wf_put_r; auto | intros; apply frame_put_r; congruence].
+  - destruct (rec_at H m s i) as [r|] eqn:E; [|split; auto using frame_refl].
+    destruct (rec_at_wf _ _ _ _ _ W Hm E) as [Lr Or]. destruct (W3 r Lr).
+    split; [apply wf_put_r; auto | intros; apply frame_put_r; congruence].
+  - destruct (rec_at H m s i) as [r|] eqn:E; [|split; auto using frame_refl].
+    destruct (rec_at_wf _ _ _ _ _ W Hm E) as [Lr Or]. destruct (W3 r Lr).
+    split; [apply wf_put_r; auto | intros; apply frame_put_r; congruence].
+  - destruct (rec_at H m s i) as [r|] eqn:E; [|split; auto using frame_refl].
+    destruct (rec_at_wf _ _ _ _ _ W Hm E) as [Lr Or]. destruct (W3 r Lr).
+    split; [apply wf_put_b; auto | intros; apply frame_put_b; congruence].
+  - destruct (rec_at H m s i) as [r|] eqn:E; [|split; auto using frame_refl].
+    destruct (rec_at_wf _ _ _ _ _ W Hm E) as [Lr Or].
+    pose proof (wf_alloc_b (own (hm H) m) d H W) as Wb.
+    pose proof (ext_alloc_b (own (hm H) m) d H) as Xb.
+    destruct (alloc_b (own (hm H) m) d H) as [H1 b] eqn:Eb. simpl in Wb, Xb.
+    assert (Q : b < nxt (hb H1) /\ own (hb H1) b = own (hm H) m /\ hr H1 = hr H).
+    { unfold alloc_b, alloc in Eb. injection Eb as <- <-. simpl. rewrite upd_same. auto. }
+    destruct Q as (Q1 & Q2 & Q3).
+    split.
+    + apply wf_put_r; simpl; [auto | exact Q1 | rewrite Q3; congruence].
+    + intros o' Ho. eapply frame_trans; [apply ext_frame; exact Xb|]. apply frame_put_r. rewrite Q3. congruence.
+  - destruct (new_rec (own (hm H) m) H v) as [H1 r] eqn:Er.
+    destruct (new_rec_spec _ _ _ _ _ Er W) as (R1 & R2 & R3 & R4 & R5 & R6 & R7 & R8).
+    destruct (Hsec s) as [La Oa].
+    split.
+    + apply wf_put_a; auto. intros x Hx. rewrite R4. apply in_app_iff in Hx. destruct Hx as [Hx | [<- | []]].
+      * destruct (W2 _ _ La Hx) as [Lx Ox]. destruct R6 as (_ & _ & [[L O] _] & _).
+        split; [lia|]. rewrite O; auto.
+      * split; [lia | congruence].
+    + intros o' Ho. eapply frame_trans; [apply ext_frame; exact R6|]. apply frame_put_a. rewrite R4. congruence.
+  - destruct (Hsec s) as [La Oa]. split.
+    + apply wf_put_a; auto. intros x Hx. apply firstn_In' in Hx. apply W2; auto.
+    + intros; apply frame_put_a. congruence.
+  - destruct (Hsec s) as [La Oa]. split.
+    + apply wf_put_a; auto. intros x Hx. apply del_nth_In in Hx. apply W2; auto.
+    + intros; apply frame_put_a. congruence.
+  - destruct (rec_at H m' s' j) as [r'|] eqn:E; [|split; auto using frame_refl].
+    destruct (rec_at_wf _ _ _ _ _ W Hm' E) as [Lr Or]. destruct (Hsec s) as [La Oa].
+    split.
+    + apply wf_put_a; auto. intros x Hx. apply set_nth_In in Hx. destruct Hx as [-> | Hx].
+      * split; auto. congruence.
+      * apply W2; auto.
+    + intros; apply frame_put_a. congruence.
+  - destruct (rec_at H m s i) as [r|] eqn:E; [|split; auto using frame_refl].
+    destruct (rec_at H m' s' j) as [r'|] eqn:E'; [|split; auto using frame_refl].
+    destruct (rec_at_wf _ _ _ _ _ W Hm E) as [Lr Or].
+    destruct (rec_at_wf _ _ _ _ _ W Hm' E') as [Lr' Or']. destruct (W3 r' Lr') as [Lb Ob].
+    split.
+    + apply wf_put_r; auto. simpl. congruence.
+    + intros; apply frame_put_r. congruence.
+Qed.
+
+(** * The invariant of histories *)
+
+Definition noopt_val (v : mval) : Prop := forall r, In r (mv_ex v) -> is_opt r = false.
+
+Definition inv (s : state) : Prop :=
+  wf_heap (hp s) /\
+  (forall k c, In (k, c) (cache s) ->
+     c < nxt (hm (hp s)) /\ own (hm (hp s)) c = 0 /\ noopt_val (value (hp s) c)) /\
+  (forall m, In m (handles s) -> m < nxt (hm (hp s)) /\ own (hm (hp s)) m <> 0).
+
+Lemma inv_init : inv init.
+Proof. split; [apply wf_empty|]. split; simpl; intros; contradiction. Qed.
+
+Lemma strip_opt_noopt v : noopt_val (strip_opt v).
+Proof.
+  unfold noopt_val, strip_opt; simpl. intros r Hr. apply filter_In in Hr as [_ Hr].
+  destruct (is_opt r); auto; discriminate.
+Qed.
+
+Lemma lookup_In k c v : lookup k c = Some v -> In (k, v) c.
+Proof.
+  induction c as [|[k' v'] t IH]; simpl; [discriminate|].
+  destruct (N.eqb_spec k k'); intro E.
+  - injection E as <-. subst. auto.
+  - auto.
+Qed.
+
+Lemma remove_In k k' v c : In (k', v) (remove k c) -> In (k', v) c.
+Proof.
+  induction c as [|[k2 v2] t IH]; simpl; auto.
+  destruct (k =? k2)%N; simpl; intros; tauto.
+Qed.
+
+(** The heap may change as long as region 0 and the shape of the handles are kept. *)
+Lemma inv_frame0 s H' sv :
+  inv s -> wf_heap H' -> frame 0 (hp s) H' -> inv (mkst H' (cache s) (handles s) sv).
+Proof.
+  intros (W & IC & IH) W' F. pose proof F as ([[Lm Om] Dm] & _).
+  split; [exact W'|]. split; simpl.
+  - intros k c Hc. destruct (IC k c Hc) as (L & O & NO). splitn; [lia | rewrite Om; auto |].
+    rewrite (value_frame 0 (hp s) H'); auto.
+  - intros m Hm. destruct (IH m Hm) as (L & O). split; [lia | rewrite Om; auto].
+Qed.
+
+Lemma save_spec k m s :
+  inv s -> m < nxt (hm (hp s)) ->
+  let v := value (hp s) m in
+  let s' := save k m s in
+  inv s' /\ ext (hp s) (hp s') /\ handles s' = handles s /\ served s' = served s /\
+  ((answers v k && admissible v = true /\
+    exists c, cache s' = (k, c) :: cache s /\ value (hp s') c = strip_opt v /\ c = nxt (hm (hp s))) \/
+   (answers v k && admissible v = false /\ s' = s)).
+Proof.
+  intros I Hm v s'. subst s'. unfold save. fold v.
+  destruct (answers v k && admissible v) eqn:Ec.
+  2:{ splitn; auto using ext_refl. }
+  pose proof I as (W & IC & IH).
+  unfold copy_no_opt. rewrite copy_msg_gen_new by auto. rewrite gen_val_true. fold v.
+  destruct (new_msg 0 (hp s) (strip_opt v)) as [H1 c] eqn:En.
+  destruct (new_msg_spec _ _ _ _ _ En W) as (M1 & M2 & M3 & M4 & M5 & M6 & _).
+  cbn [hp cache handles served]. splitn; auto.
+  - pose proof (inv_frame0 s H1 (served s) I M3 (ext_frame 0 _ _ M4)) as (_ & IC' & IH').
+    split; [exact M3|]. split; cbn [hp cache handles].
+    + intros k' c' [E | Hc]; [|apply (IC' k' c'); auto]. injection E as <- <-.
+      splitn; [lia | auto | rewrite M6; apply strip_opt_noopt].
+    + exact IH'.
+  - left. split; auto. exists c. auto.
+Qed.
+
+Lemma same_shape_ext H0 H1 H2 :
+  ext H0 H1 -> same_shape H1 H2 ->
+  (forall r, r < nxt (hr H0) -> dat (hr H2) r = dat (hr H1) r) -> ext H0 H2.
+Proof.
+  intros (X1 & X2 & X3 & X4) (A1 & A2 & A3 & A4 & A5 & A6) D.
+  split4; try congruence.
+  destruct X3 as [[L O] D3]. split; [split|].
+  - lia.
+  - intros x Hx. rewrite A5. auto.
+  - intros x Hx. rewrite D by auto. auto.
+Qed.
+
+Lemma value_put_id H m q :
+  let mo := dat (hm H) m in
+  value (put_m m (mkmsg q (m_hdr mo) (m_q mo) (m_an mo) (m_ns mo) (m_ex mo)) H) m = set_id q (value H m).
+Proof. unfold value, put_m; simpl. rewrite upd_same. reflexivity. Qed.
+
+Definition hit_value (q : N) (a : ttl_adj) (v : mval) : mval := set_id q (adjust_val a v).
+
+Lemma hit_spec s c k q a item :
+  inv s -> lookup k (cache s) = Some item ->
+  let s' := step s (Hit c k q a) in
+  let m := nxt (hm (hp s)) in
+  inv s' /\ ext (hp s) (hp s') /\ cache s' = cache s /\
+  handles s' = handles s ++ [m] /\ own (hm (hp s')) m = S c /\
+  served s' = served s ++ [Some (hit_value q a (value (hp s) item))] /\
+  value (hp s') m = hit_value q a (value (hp s) item) /\
+  nxt (hm (hp s')) = S m /\
+  (forall x, In x (reach_arrs (hp s') m) -> nxt (ha (hp s)) <= x) /\
+  (forall x, In x (reach_recs (hp s') m) -> nxt (hr (hp s)) <= x) /\
+  (forall x, In x (reach_bufs (hp s') m) -> nxt (hb (hp s)) <= x).
+Proof.
+  intros I Hl s' m0. subst s' m0. remember (nxt (hm (hp s))) as m eqn:Hm0. cbn [step]. rewrite Hl.
+  pose proof I as (W & IC & IH).
+  destruct (IC _ _ (lookup_In _ _ _ Hl)) as (Li & Oi & NOi).
+  unfold copy_msg. rewrite copy_msg_gen_new, gen_val_false by auto.
+  set (vi := value (hp s) item) in *.
+  destruct (new_msg (S c) (hp s) vi) as [H1 m1] eqn:En.
+  destruct (new_msg_spec _ _ _ _ _ En W) as (M1 & M2 & M3 & M4 & M5 & M6 & M7 & M8 & M9 & M10).
+  assert (Em : m1 = m) by congruence. clear M1. subst m1.
+  assert (ND : NoDup (reach_recs H1 m)) by (rewrite M7; apply seq_NoDup).
+  destruct (adjust_msg_spec a H1 m M3 ND) as (S2 & W2 & V2 & U2).
+  set (H2 := adjust_msg a H1 m) in *.
+  assert (X2 : ext (hp s) H2).
+  { apply (same_shape_ext _ H1); auto. intros r Hr. apply U2. rewrite M7, in_seq. lia. }
+  pose proof S2 as (A1 & A2 & A3 & A4 & A5 & A6).
+  set (mo := dat (hm H2) m).
+  set (H3 := put_m m (mkmsg q (m_hdr mo) (m_q mo) (m_an mo) (m_ns mo) (m_ex mo)) H2).
+  assert (X3 : ext (hp s) H3) by (apply ext_put_m_fresh; [auto | lia]).
+  assert (Lm2 : m < nxt (hm H2)) by (rewrite A1; lia).
+  assert (W3 : wf_heap H3).
+  { apply wf_put_m; auto. intro sx. destruct W2 as (W21 & _). destruct (W21 m sx Lm2). destruct sx; auto. }
+  assert (V3 : value H3 m = hit_value q a vi).
+  { unfold H3, mo. rewrite value_put_id, V2, M6. reflexivity. }
+  assert (Om : own (hm H3) m = S c) by (unfold H3, put_m; simpl; rewrite A1; auto).
+  (* the reachable objects of the new message *)
+  assert (Hmo : dat (hm H3) m = mkmsg q (m_hdr mo) (m_q mo) (m_an mo) (m_ns mo) (m_ex mo))
+    by (unfold H3, put_m; simpl; apply upd_same).
+  assert (RA : reach_arrs H3 m = reach_arrs H1 m).
+  { unfold reach_arrs. rewrite Hmo. simpl. unfold mo. rewrite A1. reflexivity. }
+  assert (RR : reach_recs H3 m = reach_recs H1 m).
+  { unfold reach_recs. rewrite RA. unfold H3, put_m; simpl. rewrite A2. reflexivity. }
+  cbn [hp cache handles served]. fold H3. rewrite V3.
+  splitn; auto.
+  - pose proof (inv_frame0 s H3 (served s) I W3 (ext_frame 0 _ _ X3)) as (_ & IC' & IH').
+    split; [exact W3|]. split; cbn [hp cache handles]; [exact IC'|].
+    intros x Hx. apply in_app_iff in Hx. destruct Hx as [Hx | [<- | []]]; [apply IH'; auto|].
+    split; [unfold H3, put_m; simpl; lia | rewrite Om; discriminate].
+  - unfold H3, put_m; simpl. rewrite A1. auto.
+  - intros x Hx. rewrite RA in Hx. auto.
+  - intros x Hx. rewrite RR, M7, in_seq in Hx. lia.
+  - intros x Hx. unfold reach_bufs in Hx. apply in_map_iff in Hx as (r & <- & Hr).
+    rewrite RR in Hr. unfold H3, put_m; simpl. rewrite A6. auto.
+Qed.
+
+Lemma store_spec s c k v :
+  inv s ->
+  let s' := step s (Store c k v) in
+  let m := nxt (hm (hp s)) in
+  inv s' /\ ext (hp s) (hp s') /\ handles s' = handles s ++ [m] /\ served s' = served s /\
+  own (hm (hp s')) m = S c /\ value (hp s') m = v /\
+  ((answers v k && admissible v = true /\
+    exists i, cache s' = (k, i) :: cache s /\ value (hp s') i = strip_opt v) \/
+   (answers v k && admissible v = false /\ cache s' = cache s)).
+Proof.
+  intros I s' m0. subst s' m0. cbn [step]. pose proof I as (W & IC & IH).
+  destruct (new_msg (S c) (hp s) v) as [H1 m] eqn:En.
+  destruct (new_msg_spec _ _ _ _ _ En W) as (M1 & M2 & M3 & M4 & M5 & M6 & _).
+  set (s1 := mkst H1 (cache s) (handles s ++ [m]) (served s)).
+  assert (I1 : inv s1).
+  { pose proof (inv_frame0 s H1 (served s) I M3 (ext_frame 0 _ _ M4)) as (_ & IC' & IH').
+    split; [exact M3|]. split; cbn [hp cache handles]; [exact IC'|].
+    intros x Hx. apply in_app_iff in Hx. destruct Hx as [Hx | [<- | []]]; [apply IH'; auto|].
+    unfold s1; simpl. split; [lia | rewrite M5; discriminate]. }
+  assert (Lm : m < nxt (hm (hp s1))) by (simpl; lia).
+  destruct (save_spec k m s1 I1 Lm) as (J1 & J2 & J3 & J4 & J5).
+  change (value (hp s1) m) with (value H1 m) in J5. rewrite M6 in J5.
+  assert (X : ext (hp s) (hp (save k m s1))) by (eapply ext_trans; [exact M4 | exact J2]).
+  assert (Pm : own (hm (hp (save k m s1))) m = S c /\ value (hp (save k m s1)) m = v).
+  { split.
+    - destruct J2 as ([[_ O] _] & _). rewrite O by auto. exact M5.
+    - rewrite (value_ext H1); auto. }
+  destruct Pm as [Pm1 Pm2]. rewrite <- M1.
+  splitn; auto.
+  destruct J5 as [(E1 & i & E2 & E3 & _) | (E1 & E2)].
+  - left. split; auto. exists i. auto.
+  - right. split; auto. rewrite E2. reflexivity.
+Qed.
+
+Lemma mutate_step_spec s h mu :
+  inv s ->
+  let s' := step s (Mutate h mu) in
+  inv s' /\ cache s' = cache s /\ handles s' = handles s /\ served s' = served s /\
+  forall o', o' <> actor s (Mutate h mu) -> frame o' (hp s) (hp s').
+Proof.
+  intros I s'. subst s'. cbn [step actor]. pose proof I as (W & IC & IH).
+  destruct (nth_error (handles s) h) as [m|] eqn:Eh; [|splitn; auto using frame_refl].
+  destruct (IH m (nth_error_In _ _ Eh)) as [Lm Om].
+  assert (K : forall m', m' < nxt (hm (hp s)) -> own (hm (hp s)) m' = own (hm (hp s)) m ->
+          let s' := mkst (mutate (hp s) m m' mu) (cache s) (handles s) (served s) in
+          inv s' /\ cache s' = cache s /\ handles s' = handles s /\ served s' = served s /\
+          forall o', o' <> owner s m -> frame o' (hp s) (hp s')).
+  { intros m' Lm' Oe. destruct (mutate_ok (hp s) m m' mu W Lm Lm' Oe) as [W' F'].
+    cbn [hp cache handles served]. splitn; auto.
+    apply inv_frame0; auto. }
+  destruct (link_src mu) as [h'|].
+  - destruct (nth_error (handles s) h') as [m'|] eqn:Eh'; [|splitn; auto using frame_refl].
+    destruct (IH m' (nth_error_In _ _ Eh')) as [Lm' Om'].
+    destruct (Nat.eqb_spec (own (hm (hp s)) m') (own (hm (hp s)) m)) as [Oe|]; [|splitn; auto using frame_refl].
+    apply K; auto.
+  - apply K; auto.
+Qed.
+
+Lemma lookup_remove k k' c : lookup k' (remove k c) = if (k' =? k)%N then None else lookup k' c.
+Proof.
+  induction c as [|[k2 v2] t IH]; simpl.
+  - destruct (k' =? k)%N; reflexivity.
+  - destruct (N.eqb_spec k k2); simpl.
+    + subst. rewrite IH. destruct (N.eqb_spec k' k2); auto.
+    + rewrite IH. destruct (N.eqb_spec k' k2); auto. subst.
+      destruct (N.eqb_spec k2 k); auto. congruence.
+Qed.
+
+(** Every operation that is not a holder's write only adds objects. *)
+Lemma step_ext s o : inv s -> is_mutate o = false -> inv (step s o) /\ ext (hp s) (hp (step s o)).
+Proof.
+  intros I Hn. destruct o as [c k v|k h|c k q a|h mu|k|]; try discriminate.
+  - destruct (store_spec s c k v I) as (J1 & J2 & _). auto.
+  - cbn [step]. destruct (nth_error (handles s) h) as [m|] eqn:Eh; [|auto using ext_refl].
+    destruct I as (W & IC & IH). destruct (IH m (nth_error_In _ _ Eh)) as [Lm _].
+    destruct (save_spec k m s (conj W (conj IC IH)) Lm) as (J1 & J2 & _). auto.
+  - destruct (lookup k (cache s)) as [item|] eqn:El.
+    + destruct (hit_spec s c k q a item I El) as (J1 & J2 & _). auto.
+    + cbn [step]. rewrite El. split; [|apply ext_refl]. destruct I as (W & IC & IH). split; auto.
+  - cbn [step]. split; [|apply ext_refl]. destruct I as (W & IC & IH). split; [|split]; auto.
+    cbn [cache hp]. intros k' c Hc. apply (IC k' c). eapply remove_In; eauto.
+  - cbn [step]. split; [|apply ext_refl]. destruct I as (W & IC & IH). split; [|split]; auto.
+    cbn [cache]. intros k' c [].
+Qed.
+
+Lemma step_inv s o : inv s -> inv (step s o).
+Proof.
+  intro I. destruct (is_mutate o) eqn:E.
+  - destruct o; try discriminate. apply mutate_step_spec; auto.
+  - apply step_ext; auto.
+Qed.
+
+Lemma run_from_inv ops : forall s, inv s -> inv (run_from s ops).
+Proof. unfold run_from. induction ops as [|o t IH]; intros s I; simpl; auto. apply IH, step_inv, I. Qed.
+
+Lemma run_inv ops : inv (run ops).
+Proof. apply run_from_inv, inv_init. Qed.
+
+Lemma step_frame s o o' : inv s -> o' <> actor s o -> frame o' (hp s) (hp (step s o)).
+Proof.
+  intros I Ho. destruct (is_mutate o) eqn:E.
+  - destruct o; try discriminate. apply mutate_step_spec; auto.
+  - apply ext_frame, step_ext; auto.
+Qed.
+
+(** * Separation *)
+
+Definition disjoint {A} (l1 l2 : list A) : Prop := forall x, In x l1 -> ~ In x l2.
+
+(** Two messages share no object of any kind. *)
+Definition separated (H : heap) (m1 m2 : nat) : Prop :=
+  m1 <> m2 /\
+  disjoint (reach_arrs H m1) (reach_arrs H m2) /\
+  disjoint (reach_recs H m1) (reach_recs H m2) /\
+  disjoint (reach_bufs H m1) (reach_bufs H m2).
+
+Lemma reach_region H m :
+  wf_heap H -> m < nxt (hm H) ->
+  (forall a, In a (reach_arrs H m) -> a < nxt (ha H) /\ own (ha H) a = own (hm H) m) /\
+  (forall r, In r (reach_recs H m) -> r < nxt (hr H) /\ own (hr H) r = own (hm H) m) /\
+  (forall b, In b (reach_bufs H m) -> b < nxt (hb H) /\ own (hb H) b = own (hm H) m).
+Proof.
+  intros (W1 & W2 & W3) Hm.
+  assert (A : forall a, In a (reach_arrs H m) -> a < nxt (ha H) /\ own (ha H) a = own (hm H) m).
+  { unfold reach_arrs. intros a [<- | [<- | [<- | []]]].
+    - apply (W1 m An Hm). - apply (W1 m Ns Hm). - apply (W1 m Ex Hm). }
+  assert (R : forall r, In r (reach_recs H m) -> r < nxt (hr H) /\ own (hr H) r = own (hm H) m).
+  { unfold reach_recs. intros r Hr. apply in_flat_map in Hr as (a & Ha & Hr).
+    destruct (A a Ha) as [La Oa]. destruct (W2 a r La Hr). split; congruence. }
+  splitn; auto.
+  unfold reach_bufs. intros b Hb. apply in_map_iff in Hb as (r & <- & Hr).
+  destruct (R r Hr) as [Lr Or]. destruct (W3 r Lr). split; congruence.
+Qed.
+
+Lemma regions_separated H m1 m2 :
+  wf_heap H -> m1 < nxt (hm H) -> m2 < nxt (hm H) -> own (hm H) m1 <> own (hm H) m2 ->
+  separated H m1 m2.
+Proof.
+  intros W L1 L2 Ne.
+  destruct (reach_region H m1 W L1) as (A1 & R1 & B1).
+  destruct (reach_region H m2 W L2) as (A2 & R2 & B2).
+  unfold separated, disjoint. splitn.
+  - intro; subst; auto.
+  - intros x I1 I2. destruct (A1 x I1), (A2 x I2). congruence.
+  - intros x I1 I2. destruct (R1 x I1), (R2 x I2). congruence.
+  - intros x I1 I2. destruct (B1 x I1), (B2 x I2). congruence.
+Qed.
+
+Lemma reach_ext H H' m :
+  wf_heap H -> ext H H' -> m < nxt (hm H) ->
+  reach_arrs H' m = reach_arrs H m /\ reach_recs H' m = reach_recs H m /\ reach_bufs H' m = reach_bufs H m.
+Proof.
+  intros W X Hm. destruct (reach_region H m W Hm) as (A & R & _).
+  destruct X as ([_ Dm] & [_ Da] & [_ Dr] & _).
+  assert (EA : reach_arrs H' m = reach_arrs H m) by (unfold reach_arrs; rewrite Dm; auto).
+  assert (ER : reach_recs H' m = reach_recs H m).
+  { unfold reach_recs. rewrite EA. generalize A. generalize (reach_arrs H m).
+    induction l as [|a t IH]; intro Al; simpl; auto.
+    rewrite Da by (apply Al; left; auto). rewrite IH; auto. intros; apply Al; right; auto. }
+  splitn; auto.
+  unfold reach_bufs. rewrite ER. apply map_ext_in. intros r Hr. rewrite Dr; auto. apply R; auto.
+Qed.
+
+(** * Theorems about all histories *)
+
+Theorem cache_separated ops k c h :
+  let s := run ops in
+  In (k, c) (cache s) -> In h (handles s) -> separated (hp s) c h.
+Proof.
+  intros s Hc Hh. destruct (run_inv ops) as (W & IC & IH). fold s in W, IC, IH.
+  destruct (IC k c Hc) as (Lc & Oc & _). destruct (IH h Hh) as (Lh & Oh).
+  apply regions_separated; auto. congruence.
+Qed.
+
+Theorem clients_separated ops h1 h2 :
+  let s := run ops in
+  In h1 (handles s) -> In h2 (handles s) -> owner s h1 <> owner s h2 -> separated (hp s) h1 h2.
+Proof.
+  intros s H1 H2 Ne. destruct (run_inv ops) as (W & IC & IH). fold s in W, IC, IH.
+  destruct (IH h1 H1), (IH h2 H2). apply regions_separated; auto.
+Qed.
+
+(** A hit hands out a message made of objects that did not exist before. *)
+Theorem hit_fresh ops c k q a item :
+  let s := run ops in
+  lookup k (cache s) = Some item ->
+  let s' := step s (Hit c k q a) in
+  exists m, handles s' = handles s ++ [m] /\
+    (forall h, In h (handles s) -> separated (hp s') m h) /\
+    (forall k' c', In (k', c') (cache s') -> separated (hp s') m c').
+Proof.
+  intros s Hl s'. pose proof (run_inv ops) as I. fold s in I.
+  destruct (hit_spec s c k q a item I Hl) as (J1 & J2 & J3 & J4 & J5 & J6 & J7 & J8 & FA & FR & FB).
+  fold s' in J1, J2, J3, J4, J5, J6, J7, J8, FA, FR, FB.
+  exists (nxt (hm (hp s))). split; auto.
+  pose proof I as (W & IC & IH).
+  assert (Old : forall x, x < nxt (hm (hp s)) -> separated (hp s') (nxt (hm (hp s))) x).
+  { intros x Lx. destruct (reach_ext (hp s) (hp s') x W J2 Lx) as (EA & ER & EB).
+    destruct (reach_region (hp s) x W Lx) as (A & R & B).
+    unfold separated, disjoint. rewrite EA, ER, EB. splitn.
+    - lia.
+    - intros y I1 I2. specialize (FA y I1). destruct (A y I2). lia.
+    - intros y I1 I2. specialize (FR y I1). destruct (R y I2). lia.
+    - intros y I1 I2. specialize (FB y I1). destruct (B y I2). lia. }
+  split.
+  - intros h Hh. apply Old, IH, Hh.
+  - intros k' c' Hc. rewrite J3 in Hc. apply Old. apply (IC k' c' Hc).
+Qed.
+
+(** What another client (or the cache) does leaves a client's messages alone. *)
+Theorem other_clients_invisible ops o h :
+  let s := run ops in
+  In h (handles s) -> actor s o <> owner s h ->
+  value (hp (step s o)) h = value (hp s) h.
+Proof.
+  intros s Hh Ne. pose proof (run_inv ops) as I. fold s in I.
+  pose proof I as (W & IC & IH). destruct (IH h Hh) as [Lh _].
+  apply (value_frame (owner s h)); auto. apply step_frame; auto.
+Qed.
+
+(** ** The cache's contents as values *)
+
+Lemma cache_val_frame0 s H' k :
+  inv s -> frame 0 (hp s) H' -> option_map (value H') (lookup k (cache s)) = cache_val s k.
+Proof.
+  intros (W & IC & IH) F. unfold cache_val. destruct (lookup k (cache s)) as [c|] eqn:E; simpl; auto.
+  destruct (IC k c (lookup_In _ _ _ E)) as (L & O & _). f_equal. apply (value_frame 0); auto.
+Qed.
+
+(** No holder's write changes what the cache would serve. *)
+Theorem mutation_keeps_cache ops h mu k :
+  let s := run ops in cache_val (step s (Mutate h mu)) k = cache_val s k.
+Proof.
+  intros s. pose proof (run_inv ops) as I. fold s in I.
+  destruct (mutate_step_spec s h mu I) as (J1 & J2 & J3 & J4 & J5).
+  unfold cache_val at 1. rewrite J2. apply cache_val_frame0; auto.
+  cbn [actor] in J5. destruct (nth_error (handles s) h) as [m|] eqn:E.
+  - apply J5. destruct I as (_ & _ & IH). destruct (IH m (nth_error_In _ _ E)). unfold owner. auto.
+  - cbn [step]. rewrite E. apply frame_refl.
+Qed.
+
+Lemma inv_mutation_keeps_cache s h mu k :
+  inv s -> cache_val (step s (Mutate h mu)) k = cache_val s k.
+Proof.
+  intros I.
+  destruct (mutate_step_spec s h mu I) as (J1 & J2 & J3 & J4 & J5).
+  unfold cache_val at 1. rewrite J2. apply cache_val_frame0; auto.
+  cbn [actor] in J5. destruct (nth_error (handles s) h) as [m|] eqn:E.
+  - apply J5. destruct I as (_ & _ & IH). destruct (IH m (nth_error_In _ _ E)). unfold owner. auto.
+  - cbn [step]. rewrite E. apply frame_refl.
+Qed.
+
+(** A hit returns the cache's value, TTLs rewritten, with the query's id. *)
+Theorem hit_serves_cached ops c k q a v :
+  let s := run ops in
+  cache_val s k = Some v ->
+  served (step s (Hit c k q a)) = served s ++ [Some (hit_value q a v)] /\
+  (forall k', cache_val (step s (Hit c k q a)) k' = cache_val s k').
+Proof.
+  intros s Hv. pose proof (run_inv ops) as I. fold s in I.
+  unfold cache_val in Hv. destruct (lookup k (cache s)) as [item|] eqn:El; [|discriminate].
+  simpl in Hv. injection Hv as <-.
+  destruct (hit_spec s c k q a item I El) as (J1 & J2 & J3 & J4 & J5 & J6 & _).
+  split; auto. intro k'. unfold cache_val at 1. rewrite J3. apply cache_val_frame0; auto using ext_frame.
+Qed.
+
+Theorem miss_serves_nothing ops c k q a :
+  let s := run ops in
+  cache_val s k = None -> step s (Hit c k q a) = mkst (hp s) (cache s) (handles s) (served s ++ [None]).
+Proof.
+  intros s Hv. unfold cache_val in Hv. cbn [step]. destruct (lookup k (cache s)); [discriminate | reflexivity].
+Qed.
+
+Lemma cache_val_cons s H' k c k' :
+  inv s -> frame 0 (hp s) H' ->
+  option_map (value H') (lookup k' ((k, c) :: cache s)) =
+  if (k' =? k)%N then Some (value H' c) else cache_val s k'.
+Proof.
+  intros I F. cbn [lookup]. destruct (k' =? k)%N; auto. apply cache_val_frame0; auto.
+Qed.
+
+(** Offering the cache a message stores the value it has at that moment,
+    without OPT; other keys are not affected. *)
+Theorem store_caches_snapshot ops c k v k' :
+  let s := run ops in
+  cache_val (step s (Store c k v)) k' =
+  if (k' =? k)%N && answers v k && admissible v then Some (strip_opt v) else cache_val s k'.
+Proof.
+  intros s. pose proof (run_inv ops) as I. fold s in I.
+  destruct (store_spec s c k v I) as (J1 & J2 & J3 & J4 & J5 & J6 & J7).
+  unfold cache_val at 1.
+  destruct J7 as [(E1 & i & E2 & E3) | (E1 & E2)].
+  - rewrite E2, <- andb_assoc, E1, andb_true_r, cache_val_cons by auto using ext_frame. rewrite E3. reflexivity.
+  - rewrite E2, <- andb_assoc, E1, andb_false_r. apply cache_val_frame0; auto using ext_frame.
+Qed.
+
+Theorem restore_caches_snapshot ops k h m k' :
+  let s := run ops in
+  nth_error (handles s) h = Some m ->
+  let v := value (hp s) m in
+  cache_val (step s (Restore k h)) k' =
+  if (k' =? k)%N && answers v k && admissible v then Some (strip_opt v) else cache_val s k'.
+Proof.
+  intros s Eh v. pose proof (run_inv ops) as I. fold s in I. cbn [step]. rewrite Eh.
+  pose proof I as (_ & _ & IH). destruct (IH m (nth_error_In _ _ Eh)) as [Lm _].
+  destruct (save_spec k m s I Lm) as (J1 & J2 & J3 & J4 & J5). fold v in J5.
+  unfold cache_val at 1.
+  destruct J5 as [(E1 & i & E2 & E3 & _) | (E1 & E2)].
+  - rewrite E2, <- andb_assoc, E1, andb_true_r, cache_val_cons by auto using ext_frame. rewrite E3. reflexivity.
+  - rewrite E2, <- andb_assoc, E1, andb_false_r. reflexivity.
+Qed.
+
+Theorem cached_has_no_opt ops k v :
+  cache_val (run ops) k = Some v -> forall r, In r (mv_ex v) -> v_type r <> type_opt.
+Proof.
+  intros Hv r Hr. destruct (run_inv ops) as (W & IC & IH). unfold cache_val in Hv.
+  destruct (lookup k (cache (run ops))) as [c|] eqn:E; [|discriminate]. injection Hv as <-.
+  destruct (IC k c (lookup_In _ _ _ E)) as (_ & _ & NO). specialize (NO r Hr). unfold is_opt in NO.
+  intro Q. rewrite Q in NO. discriminate.
+Qed.
+
+Theorem hit_id q a v : mv_id (hit_value q a v) = q.
+Proof. reflexivity. Qed.
+
+(** * Mutations are invisible in what the cache serves *)
+
+Definition sim (s1 s2 : state) : Prop :=
+  inv s1 /\ inv s2 /\ served s1 = served s2 /\ forall k, cache_val s1 k = cache_val s2 k.
+
+Lemma sim_refl s : inv s -> sim s s.
+Proof. intro I. unfold sim; auto. Qed.
+
+Lemma sim_mutate s1 s2 h mu : sim s1 s2 -> sim (step s1 (Mutate h mu)) s2.
+Proof.
+  intros (I1 & I2 & Sv & Cv). destruct (mutate_step_spec s1 h mu I1) as (J1 & J2 & J3 & J4 & _).
+  unfold sim; splitn; auto; try congruence.
+  intro k. rewrite inv_mutation_keeps_cache; auto.
+Qed.
+
+Lemma inv_store_cache_val s c k v k' :
+  inv s ->
+  cache_val (step s (Store c k v)) k' =
+  if (k' =? k)%N && answers v k && admissible v then Some (strip_opt v) else cache_val s k'.
+Proof.
+  intros I.
+  destruct (store_spec s c k v I) as (J1 & J2 & J3 & J4 & J5 & J6 & J7).
+  unfold cache_val at 1.
+  destruct J7 as [(E1 & i & E2 & E3) | (E1 & E2)].
+  - rewrite E2, <- andb_assoc, E1, andb_true_r, cache_val_cons by auto using ext_frame. rewrite E3. reflexivity.
+  - rewrite E2, <- andb_assoc, E1, andb_false_r. apply cache_val_frame0; auto using ext_frame.
+Qed.
+
+Lemma inv_hit_served s c k q a :
+  inv s ->
+  served (step s (Hit c k q a)) = served s ++ [option_map (hit_value q a) (cache_val s k)] /\
+  forall k', cache_val (step s (Hit c k q a)) k' = cache_val s k'.
+Proof.
+  intros I. unfold cache_val at 1. destruct (lookup k (cache s)) as [item|] eqn:El.
+  - destruct (hit_spec s c k q a item I El) as (J1 & J2 & J3 & J4 & J5 & J6 & _).
+    split; auto. intro k'. unfold cache_val at 1. rewrite J3. apply cache_val_frame0; auto using ext_frame.
+  - cbn [step]. rewrite El. split; reflexivity.
+Qed.
+
+Lemma sim_step s1 s2 o :
+  sim s1 s2 -> is_mutate o = false -> is_restore o = false -> sim (step s1 o) (step s2 o).
+Proof.
+  intros (I1 & I2 & Sv & Cv) Hm Hr.
+  assert (K1 := step_inv s1 o I1). assert (K2 := step_inv s2 o I2).
+  unfold sim. split; [auto|]. split; [auto|].
+  destruct o as [c k v|k h|c k q a|h mu|k|]; try discriminate.
+  - destruct (store_spec s1 c k v I1) as (_ & _ & _ & A4 & _).
+    destruct (store_spec s2 c k v I2) as (_ & _ & _ & B4 & _).
+    split; [congruence|]. intro k'. rewrite !inv_store_cache_val by auto. rewrite Cv. reflexivity.
+  - destruct (inv_hit_served s1 c k q a I1) as [A1 A2].
+    destruct (inv_hit_served s2 c k q a I2) as [B1 B2].
+    split; [rewrite A1, B1, Sv, Cv; reflexivity|]. intro k'. rewrite A2, B2. apply Cv.
+  - cbn [step]. split; auto. intro k'. unfold cache_val; cbn [hp cache]. rewrite !lookup_remove.
+    destruct (k' =? k)%N; auto. apply Cv.
+  - cbn [step]. split; auto.
+Qed.
+
+Definition no_restore (ops : list op) : Prop := forallb (fun o => negb (is_restore o)) ops = true.
+
+Lemma sim_run ops : forall s1 s2,
+  sim s1 s2 -> no_restore ops -> sim (run_from s1 ops) (run_from s2 (erase_mutations ops)).
+Proof.
+  unfold run_from, no_restore. induction ops as [|o t IH]; intros s1 s2 S NR; simpl in *; auto.
+  apply andb_true_iff in NR as [NR1 NR2].
+  destruct (is_mutate o) eqn:Em; simpl.
+  - destruct o; try discriminate. apply IH; auto. apply sim_mutate; auto.
+  - apply IH; auto. apply sim_step; auto. destruct (is_restore o); auto; discriminate.
+Qed.
+
+(** Starting anywhere in a history, the values returned by the lookups of a
+    continuation are the same with and without the holders' writes. *)
+Theorem mutations_invisible_from pre ops :
+  no_restore ops ->
+  served (run_from (run pre) ops) = served (run_from (run pre) (erase_mutations ops)).
+Proof. intro NR. apply (sim_run ops (run pre) (run pre)); auto. apply sim_refl, run_inv. Qed.
+
+Theorem mutations_invisible ops :
+  no_restore ops -> served (run ops) = served (run (erase_mutations ops)).
+Proof. intro NR. apply (sim_run ops init init); auto. apply sim_refl, inv_init. Qed.
